@@ -60,7 +60,7 @@ ASSUMPTIONS = [
     "scale families are judged relative to max|data| like every other case (pedestal cases therefore test accumulation precision, not contrast recovery)",
     "class 7 of the widening list (containers with mixed members) does not apply: the Dataset operations take one array",
 ]
-BUDGET = {"quick": {"soft_s": 100}, "thorough": {"soft_s": 560}}
+BUDGET = {"quick": {"soft_s": 300}, "thorough": {"soft_s": 1200}}
 MIN_EVALUATIONS = {"quick": 5000, "thorough": 100000}
 REQUIRED_COUNTERS = [
     "eval:bin_block_values", "eval:bin_origin", "eval:bin_sampling", "eval:bin_count_conservation", "eval:bin_block_centre",
